@@ -480,17 +480,17 @@ JOBS = [
 
 MORE_JOBS = [
     # thorough tier: the remaining variants, more players, more symbolic decisions / counts / masks, other deck orders
-    ('FT/n4/counts', dict(code='FT', n=4, sym_decisions=3, manual='counts', count_budget=6)),
+    ('FT/n4/counts', dict(code='FT', n=4, sym_decisions=2, manual='counts', count_budget=4)),
     ('NS/n3/counts', dict(code='NS', n=3, sym_decisions=3, manual='counts', count_budget=6)),
-    ('FO8/n3/counts', dict(code='FO8', n=3, sym_decisions=2, manual='counts', count_budget=6)),
+    ('FO8/n3/counts', dict(code='FO8', n=3, sym_decisions=1, manual='counts', count_budget=4)),
     ('PO/n3/2boards/counts', dict(code='PO', n=3, sym_decisions=1, manual='counts', boards=2, count_budget=6)),
     ('NT/n2/3boards/counts', dict(code='NT', n=2, sym_decisions=1, manual='counts', boards=3, count_budget=6)),
     ('F7S8/n3/counts', dict(code='F7S8', n=3, sym_decisions=3, manual='counts', count_budget=6)),
-    ('FR/n4/counts', dict(code='FR', n=4, sym_decisions=2, manual='counts', count_budget=6)),
-    ('F7S/n7/exhaustion', dict(code='F7S', n=7, sym_decisions=3, manual='auto', draw_masks=False)),
-    ('F2L3D/n5/masks', dict(code='F2L3D', n=5, sym_decisions=1, manual='auto', mask_budget=6)),
-    ('FB/n4/masks', dict(code='FB', n=4, sym_decisions=2, manual='auto', mask_budget=6)),
-    ('N2L1D/n6/masks', dict(code='N2L1D', n=6, sym_decisions=2, manual='one', mask_budget=6)),
+    ('FR/n4/counts', dict(code='FR', n=4, sym_decisions=1, manual='counts', count_budget=4)),
+    ('F7S/n7/many-players', dict(code='F7S', n=7, sym_decisions=3, manual='auto', draw_masks=False)),
+    ('F2L3D/n5/masks', dict(code='F2L3D', n=5, sym_decisions=1, manual='auto', mask_budget=5)),
+    ('FB/n4/masks', dict(code='FB', n=4, sym_decisions=1, manual='auto', mask_budget=5)),
+    ('N2L1D/n6/masks', dict(code='N2L1D', n=6, sym_decisions=1, manual='auto', mask_budget=5)),
     ('NT/n3/counts/reversed', dict(code='NT', n=3, sym_decisions=3, manual='counts', deck='reversed')),
     ('F2L3D/n6/exhaustion/stride7', dict(code='F2L3D', n=6, sym_decisions=1, manual='auto', mask_budget=3, fixed_mask=3,
                                          deck='stride7')),
